@@ -90,6 +90,21 @@ class DictMixin:
                       else z3.If(present, -1, 0))
             self.s_set(recv, st, z3.Store(cur, x, z3.BoolVal(name == "add")))
             return NONE
+        if name == "union":
+            other = args[0]
+            if not (isinstance(other, VRef) and other.cls == "set"):
+                raise Unsupported("set.union with a non-set")
+            if other.elem is None:
+                return self.setop(recv, "copy", [], {}, st, fr)
+            new = self.alloc(st, "set", recv.elem, "sunion")
+            kb = base_tag(recv.elem)
+            u = fresh("union", z3.ArraySort(sort_of(kb), BOOL))
+            k = z3.Const(fresh_name("uk"), sort_of(kb))
+            oth = self.s_arr(other, st)
+            st.assume(z3.ForAll([k], z3.Select(u, k) == z3.Or(
+                z3.Select(cur, k), z3.Select(oth, k))))
+            self.s_set(new, st, u)
+            return new
         if name == "copy":
             new = self.alloc(st, "set", recv.elem, "scopy")
             self.s_set(new, st, cur)
